@@ -515,6 +515,17 @@ theorem format_counterexample :
     formatOutcome ⟨true, true⟩ "csv" (.slice "" (.ptr "NameNode") false [.nilNode "NameNode"]) = .panic := by
   decide
 
+/-! ### the accessor menu against the reflected method tables -/
+
+set_option maxRecDepth 100000 in
+/-- `menu_classifies_reflected_methods`.  Every method reflection finds on the document, on
+    gedcom.Tag, on gedcom.Date and on every node type (regenerated table) that a query can call —
+    no arguments, at least one result — is either evaluated by the model's menu (asked of
+    `callMenu` itself) or declared outside it in `outsideMenu`; and every declaration names a
+    method that exists and is not in the menu.  A new exported method breaks this obligation until
+    it is modelled or declared. -/
+theorem menu_classifies_reflected_methods : menuClassified = true ∧ outsideMenuExact = true := by decide
+
 /-! ### the whole pipeline of `gedcom query` -/
 
 /-- `query_never_crashes`.  For every query string, document list and format, with the fuel the
